@@ -351,7 +351,8 @@ namespace bluetoe
                             used_buffer_  = 0;
                             in_flash_mode = true;
 
-                            if ( !MemRegions::acceptable( start_address, start_address ) )
+                            // flashing is done in whole pages: the page, that contains the start address, is read and flashed
+                            if ( !page_acceptable( start_address ) )
                                 return request_error( bluetoe::error_codes::invalid_offset );
 
                             for ( auto& buffer : buffers_ )
@@ -599,6 +600,10 @@ namespace bluetoe
                 {
                     const auto next = ( next_buffer_ + 1 ) % number_of_concurrent_flashs;
 
+                    // the data runs into a page, that is not white listed
+                    if ( !page_acceptable( start_address ) )
+                        return false;
+
                     if ( buffers_[ next ].empty() )
                     {
                         ++consecutive_;
@@ -609,6 +614,13 @@ namespace bluetoe
                     }
 
                     return false;
+                }
+
+                static bool page_acceptable( std::uintptr_t address )
+                {
+                    const std::uintptr_t page_start = address - address % PageSize;
+
+                    return MemRegions::acceptable( page_start, page_start + PageSize );
                 }
 
                 std::pair< std::uint8_t, bool > request_error( std::uint8_t code )
